@@ -619,6 +619,8 @@ class LibMixin:
         if cn not in self.autostubs:
             self.autostubs[cn] = proto
             self.fninfo.setdefault(cn, {'qname': self.qname.get(d['id']), 'stub': True})
+        if rt.kind == 'ptr' and not rt.ref:
+            self.nullable_stubs.add(cn)          # a C++ pointer result (not a reference): the default stub may return null
         self.rules['auto-stub-call'] += 1
         if self.wb:
             # reference arguments that are nested container elements were passed as copies: declare / write back here too
